@@ -192,6 +192,7 @@ MANIFEST = {
                   "toctree, distinct entries, no dangling entry, every generated file reachable from the top index, titles naming "
                   "the directory with the prefix, and (where the reference walk is unambiguous) exact entry sets.  Worlds are "
                   "biased towards directories that are excluded, auto-excluded, emptied by exclusion or nested below directories "
-                  "without CMake files, with separators other than '.'.",
+                  "without CMake files, with separators other than '.', working directories inside the tree, and a re-run over older, "
+                  "longer, future-stamped index files left in the output directory.",
     "level_note": "trusted: the line-based index reader (relies only on the format C14/C20 state), reference walk, tmpfs",
 }
